@@ -9,9 +9,12 @@
 #include <limits.h>
 
 /* ================================================================== model */
-static const long EXPLEE[] = { -1, 0, 5, 1L << 40 };
-static const long NBFLEE[] = { -1, 0, 5 };
-static const char *STRV[] = { NULL, "a", "b" };
+static const long EXPLEE[] = { -1, 0, 5, 1L << 40, -100 };
+static const long NBFLEE[] = { -1, 0, 5, 1L << 40 };
+#define NEXPL 5
+#define NNBFL 4
+#define NSTRV 4
+static const char *STRV[] = { NULL, "a", "b", "urn:iss\xc3\xa9r/long value" };
 static const char *CNAME[] = { "iss", "sub", "aud" };
 static const jwt_claims_t CTYPE[] = { JWT_CLAIM_ISS, JWT_CLAIM_SUB, JWT_CLAIM_AUD };
 
@@ -19,39 +22,42 @@ typedef struct {
 	int exp_i, nbf_i, str[3];
 } cst_t;
 
-#define NSTATES (4 * 3 * 27)
-static int st_id(const cst_t *s) { return (((s->exp_i * 3 + s->nbf_i) * 3 + s->str[0]) * 3 + s->str[1]) * 3 + s->str[2]; }
+#define NSTATES (NEXPL * NNBFL * NSTRV * NSTRV * NSTRV)
+static int st_id(const cst_t *s) { return (((s->exp_i * NNBFL + s->nbf_i) * NSTRV + s->str[0]) * NSTRV + s->str[1]) * NSTRV + s->str[2]; }
 static cst_t st_of(int id)
 {
 	cst_t s;
-	s.str[2] = id % 3; id /= 3;
-	s.str[1] = id % 3; id /= 3;
-	s.str[0] = id % 3; id /= 3;
-	s.nbf_i = id % 3; id /= 3;
+	s.str[2] = id % NSTRV; id /= NSTRV;
+	s.str[1] = id % NSTRV; id /= NSTRV;
+	s.str[0] = id % NSTRV; id /= NSTRV;
+	s.nbf_i = id % NNBFL; id /= NNBFL;
 	s.exp_i = id;
 	return s;
 }
 
-/* alphabet */
-enum { OP_SET_A, OP_SET_B, OP_DEL };          /* per string claim: 3 ops x 3 claims = 0..8 */
-#define OP_EXPLEE 9                             /* 9..12 */
-#define OP_NBFLEE 13                            /* 13..15 */
-#define OP_BAD_SET_EXP 16
-#define OP_BAD_LEE_ISS 17
-#define OP_BAD_SET_NULL 18
-#define OP_BAD_SET_IAT 19
-#define OP_BAD_DEL_EXP 20
-#define NOPS 21
+/* alphabet: per string claim NSTRV-1 set operations and one delete; then the leeways; then invalid calls */
+#define PERCLAIM NSTRV                          /* set(v1..v3), del */
+#define OP_EXPLEE (3 * PERCLAIM)
+#define OP_NBFLEE (OP_EXPLEE + NEXPL)
+#define OP_BAD_SET_EXP (OP_NBFLEE + NNBFL)
+#define OP_BAD_LEE_ISS (OP_BAD_SET_EXP + 1)
+#define OP_BAD_SET_NULL (OP_BAD_SET_EXP + 2)
+#define OP_BAD_SET_IAT (OP_BAD_SET_EXP + 3)
+#define OP_BAD_DEL_EXP (OP_BAD_SET_EXP + 4)
+#define NOPS (OP_BAD_SET_EXP + 5)
 
 static const char *op_name(int op)
 {
-	static char b[64];
-	if (op < 9) {
-		int c = op / 3, k = op % 3;
-		snprintf(b, sizeof b, k == OP_DEL ? "claim_del(%s)" : "claim_set(%s,%s)", CNAME[c], k == OP_SET_A ? "a" : "b");
-	} else if (op < 13)
+	static char b[96];
+	if (op < OP_EXPLEE) {
+		int c = op / PERCLAIM, k = op % PERCLAIM;
+		if (k == PERCLAIM - 1)
+			snprintf(b, sizeof b, "claim_del(%s)", CNAME[c]);
+		else
+			snprintf(b, sizeof b, "claim_set(%s,%s)", CNAME[c], STRV[k + 1]);
+	} else if (op < OP_NBFLEE)
 		snprintf(b, sizeof b, "time_leeway(EXP,%ld)", EXPLEE[op - OP_EXPLEE]);
-	else if (op < 16)
+	else if (op < OP_BAD_SET_EXP)
 		snprintf(b, sizeof b, "time_leeway(NBF,%ld)", NBFLEE[op - OP_NBFLEE]);
 	else if (op == OP_BAD_SET_EXP) snprintf(b, sizeof b, "claim_set(EXP,x)!");
 	else if (op == OP_BAD_LEE_ISS) snprintf(b, sizeof b, "time_leeway(ISS,3)!");
@@ -64,16 +70,16 @@ static const char *op_name(int op)
 /* model step: returns expected return code (0 ok / 1 error) */
 static int model_step(cst_t *s, int op)
 {
-	if (op < 9) {
-		int c = op / 3, k = op % 3;
-		s->str[c] = k == OP_DEL ? 0 : k == OP_SET_A ? 1 : 2;
+	if (op < OP_EXPLEE) {
+		int c = op / PERCLAIM, k = op % PERCLAIM;
+		s->str[c] = k == PERCLAIM - 1 ? 0 : k + 1;
 		return 0;
 	}
-	if (op < 13) {
+	if (op < OP_NBFLEE) {
 		s->exp_i = op - OP_EXPLEE;
 		return 0;
 	}
-	if (op < 16) {
+	if (op < OP_BAD_SET_EXP) {
 		s->nbf_i = op - OP_NBFLEE;
 		return 0;
 	}
@@ -82,15 +88,15 @@ static int model_step(cst_t *s, int op)
 
 static int impl_step(jwt_checker_t *c, int op)
 {
-	if (op < 9) {
-		int cl = op / 3, k = op % 3;
-		if (k == OP_DEL)
+	if (op < OP_EXPLEE) {
+		int cl = op / PERCLAIM, k = op % PERCLAIM;
+		if (k == PERCLAIM - 1)
 			return jwt_checker_claim_del(c, CTYPE[cl]) != 0;
-		return jwt_checker_claim_set(c, CTYPE[cl], k == OP_SET_A ? "a" : "b") != 0;
+		return jwt_checker_claim_set(c, CTYPE[cl], STRV[k + 1]) != 0;
 	}
-	if (op < 13)
+	if (op < OP_NBFLEE)
 		return jwt_checker_time_leeway(c, JWT_CLAIM_EXP, EXPLEE[op - OP_EXPLEE]) != 0;
-	if (op < 16)
+	if (op < OP_BAD_SET_EXP)
 		return jwt_checker_time_leeway(c, JWT_CLAIM_NBF, NBFLEE[op - OP_NBFLEE]) != 0;
 	switch (op) {
 	case OP_BAD_SET_EXP: return jwt_checker_claim_set(c, JWT_CLAIM_EXP, "x") != 0;
@@ -232,15 +238,18 @@ static int tshape_text(const tshape_t *t, long bnd, char *out, size_t n, long *v
 static int sshape_text(int shape, const char *expect, char *out, size_t n)
 {
 	const sshape_t *s = &SSHAPES[shape];
-	char up[8];
+	char tmp[64];
 	if (s->kind == SK_ABSENT)
 		return 0;
 	if (!strcmp(s->label, "case")) {
-		snprintf(up, sizeof up, "%c", expect[0] - 32);
-		snprintf(out, n, s->fmt, up);
-	} else if (!strcmp(s->label, "prefix"))
-		snprintf(out, n, "\"\"");
-	else
+		snprintf(tmp, sizeof tmp, "%s", expect);
+		tmp[0] -= 32;
+		snprintf(out, n, s->fmt, tmp);
+	} else if (!strcmp(s->label, "prefix")) {
+		snprintf(tmp, sizeof tmp, "%s", expect);
+		tmp[strlen(tmp) - 1] = 0;   /* proper prefix: everything but the last byte */
+		snprintf(out, n, "\"%s\"", tmp);
+	} else
 		snprintf(out, n, s->fmt, expect, expect);
 	return 1;
 }
@@ -259,7 +268,7 @@ static void probe_payload(const probe_t *p, const cst_t *s, char *out, size_t n)
 	if (tshape_text(&TSHAPES[p->nbf], nb, t, sizeof t, &v))
 		o += snprintf(out + o, n - o, ",\"nbf\":%s", t);
 	for (int c = 0; c < 3; c++) {
-		const char *expect = STRV[s->str[c]] ? STRV[s->str[c]] : "a";
+		const char *expect = STRV[s->str[c]] ? STRV[s->str[c]] : "a";   /* no expectation configured: the shapes are built around "a" */
 		if (sshape_text(p->s[c], expect, t, sizeof t))
 			o += snprintf(out + o, n - o, ",\"%s\":%s", CNAME[c], t);
 	}
@@ -494,13 +503,13 @@ static void enumerate_c04(void)
 		/* detour: flip everything first, then redo the canonical history followed by the full re-assertion of s */
 		int det[96], m = 0;
 		det[m++] = OP_EXPLEE + 0; det[m++] = OP_NBFLEE + 0;
-		det[m++] = 0 * 3 + OP_SET_B; det[m++] = 1 * 3 + OP_SET_B; det[m++] = 2 * 3 + OP_SET_B;
+		det[m++] = 0 * PERCLAIM + 1; det[m++] = 1 * PERCLAIM + 1; det[m++] = 2 * PERCLAIM + 1;
 		det[m++] = OP_BAD_SET_EXP; det[m++] = OP_BAD_LEE_ISS;
 		cst_t want = st_of(id);
 		det[m++] = OP_EXPLEE + want.exp_i;
 		det[m++] = OP_NBFLEE + want.nbf_i;
 		for (int c = 0; c < 3; c++)
-			det[m++] = c * 3 + (want.str[c] == 0 ? OP_DEL : want.str[c] == 1 ? OP_SET_A : OP_SET_B);
+			det[m++] = c * PERCLAIM + (want.str[c] == 0 ? PERCLAIM - 1 : want.str[c] - 1);
 		cst_t s;
 		int div;
 		jwt_checker_t *c = replay_history(det, m, &s, &div);
